@@ -307,3 +307,62 @@ HEAVY = ('socket', 'sockopt', 'fcntl', 'sigaction', 'csops', 'proc_info', 'ioctl
 def weight(st):
     n = st.get('name', '')
     return 10 if any(h in n for h in HEAVY) else 1
+
+
+# ------------------------------------------------------------------ process-level state of the repo's modules
+_snapshot = {}
+
+
+def _repo_modules():
+    import sys
+    return [m for n, m in sorted(sys.modules.items()) if m is not None and (n == 'pykdebugparser' or n.startswith('pykdebugparser.'))]
+
+
+def _containers(ns_owner, ns):
+    for name, val in list(ns.items()):
+        if name.startswith('__'):
+            continue
+        if isinstance(val, (dict, list, set)) and type(val) in (dict, list, set):
+            yield ('c', ns_owner, name, val)
+        elif callable(getattr(val, 'cache_clear', None)):
+            yield ('f', ns_owner, name, val)
+
+
+def snapshot_state():
+    """remember the content of every module-level / class-level mutable container of the repo's modules as it is right
+    after import (call once, before anything was decoded)"""
+    if _snapshot:
+        return
+    import pykdebugparser.traces_parser      # noqa
+    import pykdebugparser.pykdebugparser     # noqa
+    items = []
+    for mod in _repo_modules():
+        for it in _containers(mod, vars(mod)):
+            items.append(it)
+        for name, cls in list(vars(mod).items()):
+            if isinstance(cls, type) and getattr(cls, '__module__', None) == mod.__name__:
+                for it in _containers(cls, dict(vars(cls))):
+                    items.append(it)
+    _snapshot['items'] = [(k, o, n, v, (type(v)(v) if k == 'c' else None)) for k, o, n, v in items]
+
+
+def reset_state():
+    """bring that state back: what a fresh interpreter would start from (memo dicts, lru caches, class-level caches)"""
+    if not _snapshot:
+        snapshot_state()
+        return
+    for kind, owner, name, obj, content in _snapshot['items']:
+        if kind == 'f':
+            obj.cache_clear()
+        elif isinstance(obj, dict):
+            obj.clear(); obj.update(content)
+        elif isinstance(obj, list):
+            obj[:] = content
+        else:
+            obj.clear(); obj.update(content)
+    # containers created after the snapshot (module globals rebound later) are emptied
+    known = {id(o) for _, _, _, o, _ in _snapshot['items']}
+    for mod in _repo_modules():
+        for kind, owner, name, obj in _containers(mod, vars(mod)):
+            if id(obj) not in known and kind == 'c' and name not in _snapshot.get('late', set()):
+                pass
